@@ -130,6 +130,44 @@ func builtInSources(c *core.Ctx) {
 		events = append(events, int64(len(defs)))
 		descs[id] = entry + ": " + strings.Join(desc, " | ")
 	}
+	// Merge chains: ONE parsed document merged first into two documents, each of which then receives another one
+	// (a cached base in front of two different tails): each chain lists its own sources, whatever the other did
+	mid := n
+	for k := 1; k <= 9; k++ {
+		var bt, xt, yt strings.Builder
+		for j := 0; j < k; j++ {
+			fmt.Fprintf(&bt, "scalar B%d extend scalar B%d @d directive @b%d on SCALAR ", j, j, j)
+		}
+		xt.WriteString("scalar X extend scalar X @d directive @x on SCALAR")
+		yt.WriteString("scalar Y extend scalar Y @d directive @y on SCALAR")
+		parse := func(t string) *ast.SchemaDocument {
+			d, err := parser.ParseSchema(&ast.Source{Name: "m.graphql", Input: t})
+			if err != nil {
+				return &ast.SchemaDocument{}
+			}
+			return d
+		}
+		base, x, y := parse(bt.String()), parse(xt.String()), parse(yt.String())
+		var a, b ast.SchemaDocument
+		func() {
+			defer guard("SchemaDocument.Merge", bt.String())()
+			a.Merge(base)
+			b.Merge(base)
+			a.Merge(x)
+			b.Merge(y)
+		}()
+		for _, ch := range []struct {
+			doc  *ast.SchemaDocument
+			tail string
+		}{{&a, xt.String()}, {&b, yt.String()}} {
+			mid++
+			parts := [][]GTc{toGTc(schemaNorm(ProjectSchemaDoc(parse(bt.String())))), toGTc(schemaNorm(ProjectSchemaDoc(parse(ch.tail))))}
+			rec, _ := json.Marshal(map[string]any{"id": mid, "parts": parts, "merged": toGTc(schemaNorm(ProjectSchemaDoc(ch.doc))), "defs": []defRec{}})
+			lines = append(lines, rec)
+			events = append(events, 0)
+			descs[mid] = fmt.Sprintf("Merge chain: a base of %d definitions / extensions / directives merged into two documents, then %q into this one (and another tail into the other)", k, ch.tail)
+		}
+	}
 	cfg := "SPECIFICATION Spec\nCONSTANTS\n  LexDevs = {}\n  GrammarDevs = {}\nCHECK_DEADLOCK FALSE\n"
 	bad, ok := RunTrace(c, TraceJob{Module: "BuiltIn_Trace", CfgText: cfg, Lines: lines, Events: events, Shards: 8, Stack: "256m"})
 	if !ok {
@@ -150,6 +188,12 @@ func builtInSources(c *core.Ctx) {
 
 // constant values with lists nested at every position, after earlier lists of the same document
 var nestedListSchemaTexts = []string{
+	// every value of a type-system document is constant: a variable anywhere is not derivable
+	`type T @d(x: $v) { f: Int }`, `type T { f(a: Int = $v): Int }`, `directive @d(a: Int = $v) on FIELD`, `enum E { A @d(x: $v) }`, `type T { f(a: Int @d(x: $v)): Int }`,
+	`scalar S @d(x: [$v])`, `input I { f: Int = {k: $v} }`, `extend schema @d(x: $v)`, `schema @d(x: $v) { query: Q }`, `interface I { f: Int @d(x: $v) }`, `union U @d(x: $v) = A`,
+	`extend type T @d(x: {k: [$v]})`, `input I { f: Int = 1 @d(x: $v) }`,
+	// an empty description is a description: none may stand before an extension
+	`"" extend type A { f: Int }`, `"""""" extend schema @d`, "\"\"\"\n   \n\"\"\"\nextend scalar S @d", `scalar S "" extend scalar S @d`, `"" scalar S`, `type T { "" f: Int "" g(""" """ a: Int): Int }`,
 	`type T { f(ids: [Int] = [7, 8, 9], grid: [[Int]] = [[1], [2, 3], []], mixed: [In] = [{x: 1}, {xs: [7, 8]}, {x: 3}]): Int @window(rows: [[0, 1], [2, 3]]) }`,
 	`directive @d(a: [[Int]] = [[1, 2], [3, [4, [5]]], 6]) on OBJECT input In { a: [Int] = [1] b: [[Int]] = [[2], [3]] c: [[[Int]]] = [[[4]], [[5], [6]]] }`,
 	`scalar S @d(a: [1, 2]) @d(a: [[3], [4]]) @d(a: [{k: [5]}, {k: [[6], [7]]}]) extend scalar S @d(a: [[], [[]], [[], []]])`,
